@@ -2381,6 +2381,8 @@ void probeChild(void *arg)
         present = r && imp->flattenModel(m) == nullptr;
     } else {
         emit("PROBE-BEFORE-FLATTEN");
+        signal(SIGSEGV, SIG_DFL); // die quietly: a symbolised sanitizer report costs a second per probe
+        signal(SIGBUS, SIG_DFL);
         (void)imp->flattenModel(m); // dies (or is killed by the alarm) when the defect is present
         present = false;
     }
